@@ -81,3 +81,12 @@ Qed.
 Theorem decoder_robust_translated : forall fuel dep,
   (forall id, robust (gen_any fuel dep id)) /\ (forall t id, robust (gen_ty fuel dep t id)) /\ (forall id, robust (gen_dyn fuel dep id)).
 Proof. intros. rewrite unmarshal_any_tie, unmarshal_ty_tie, dynbt_unmarshal_tie. repeat split; intros; auto with rb. Qed.
+
+(* ---------- phase 5 ---------- *)
+Theorem encode_total_translated : forall fuel dep id s, (length s + 1 < fuel)%nat -> prog s (run_flat (gen_text fuel dep id) s).
+Proof. rewrite encode_tie. exact dtext_prog. Qed.
+Theorem encode_exact_translated : forall t, wf t -> forall fuel dep rest, (length (payload t) < fuel)%nat -> depth t <= dep ->
+  run_flat (gen_text fuel dep (tag_id t)) (payload t ++ rest) = FOk tt rest.
+Proof. rewrite encode_tie. exact dtext_conforms. Qed.
+Theorem encode_robust_translated : forall fuel dep id, robust (gen_text fuel dep id).
+Proof. rewrite encode_tie. exact dtext_robust. Qed.
